@@ -37,7 +37,30 @@ func c03prop(r *simkit.Run) {
 	_, unfreeze := freeze(rt)
 	defer unfreeze()
 	start := clock.Now()
+	// dynamic configuration: a rate extractor supplies a second rate set while it works; when it fails or returns
+	// nothing the limiter's defaults are the configured rates. Each stretch of requests under one regime must obey
+	// that regime's bound.
+	dynamic := inDomain && rapid.IntRange(0, 3).Draw(rt, "dynamic-rates") == 0
+	var extracted []rateSpec
+	extractorMode := 0 // 0 healthy, 1 error, 2 empty set
+	regime := 0
+	regimeRates := map[int][]rateSpec{}
+	regimeWhy := map[int]string{}
+	if dynamic {
+		extracted = drawRates(rt, true, maxAvg)
+		rateOverride = func() ([]rateSpec, error) {
+			switch extractorMode {
+			case 1:
+				return nil, fmt.Errorf("simulated: rate lookup failed")
+			case 2:
+				return nil, nil
+			}
+			return extracted, nil
+		}
+		defer func() { rateOverride = nil }()
+	}
 	lim := newTLim(rt, rates, capacity)
+	rateOverride = nil
 	// requests arriving at once are served by concurrent tasks, interleaved at every lock operation of the limiter
 	sim := simrt.New(r.Chooser())
 	defer sim.Shutdown()
@@ -76,6 +99,10 @@ func c03prop(r *simkit.Run) {
 		if len(trace) < 60 {
 			trace = append(trace, fmt.Sprintf("t=%v s%d x%d -> %d", now, src, amount, res.status))
 		}
+		mb := minBurst(rates)
+		if dynamic && extractorMode == 0 {
+			mb = minBurst(extracted)
+		}
 		switch res.class() {
 		case ansAdmit:
 			nAdm++
@@ -91,7 +118,14 @@ func c03prop(r *simkit.Run) {
 			if now-firstSeen[src] > 10*maxPeriod(rates)+2*time.Second {
 				busyPastLifetime = true
 			}
-			admitted[src] = append(admitted[src], admitEv{now, amount})
+			if dynamic {
+				if extractorMode == 0 {
+					regimeRates[regime], regimeWhy[regime] = extracted, "healthy"
+				} else {
+					regimeRates[regime], regimeWhy[regime] = rates, []string{"", "failing", "returning an empty set"}[extractorMode]
+				}
+			}
+			admitted[src] = append(admitted[src], admitEv{now, amount, regime})
 		case ansReject:
 			nRej++
 		case ansError:
@@ -125,7 +159,13 @@ func c03prop(r *simkit.Run) {
 	for opsLeft > 0 {
 		src := rapid.IntRange(0, nsrc-1).Draw(rt, "src")
 		rate := rates[rapid.IntRange(0, len(rates)-1).Draw(rt, "phase-rate")]
-		switch rapid.SampledFrom([]string{phBurst, phSustained, phSustained, phPaced, phMixed, phMixed, phIdle, phConc}).Draw(rt, "phase") {
+		switch rapid.SampledFrom([]string{phBurst, phSustained, phSustained, phPaced, phMixed, phMixed, phIdle, phConc, "extractor-toggle"}).Draw(rt, "phase") {
+		case "extractor-toggle":
+			if dynamic {
+				extractorMode = rapid.IntRange(0, 2).Draw(rt, "extractor-mode")
+				regime++
+			}
+			opsLeft--
 		case phConc:
 			// 2-4 requests in flight at the same instant (often of one source, also right after an idle gap that let its entry lapse)
 			k := rapid.IntRange(2, 4).Draw(rt, "conc-tasks")
@@ -194,7 +234,26 @@ func c03prop(r *simkit.Run) {
 		}
 	}
 
-	if inDomain {
+	if inDomain && dynamic {
+		// split every source's admissions into stretches under one regime; which rates a regime had is recorded below
+		for s := range admitted {
+			for i := 0; i < len(admitted[s]); {
+				j := i
+				for j < len(admitted[s]) && admitted[s][j].regime == admitted[s][i].regime {
+					j++
+				}
+				rs := regimeRates[admitted[s][i].regime]
+				for _, rate := range rs {
+					if ok, msg := checkBound(admitted[s][i:j], rate); !ok {
+						r.Tracef("first operations: %v", trace)
+						r.Fail("rate-bound", "source s%d, while the rates in force were %v (rate extractor %s): %s", s, rs, regimeWhy[admitted[s][i].regime], msg)
+					}
+				}
+				i = j
+			}
+		}
+		r.Probe("dynamic-rates")
+	} else if inDomain {
 		for s := range admitted {
 			for _, rate := range rates {
 				if ok, msg := checkBound(admitted[s], rate); !ok {
